@@ -50,9 +50,27 @@ class Never(Unit):
     def __repr__(self): return '!'
 NEVER = Never()
 
+TRANSPARENT = set()     # crate-private helper structs: state nested in one is found under the parent by field name (ir.Facts fills it)
+
+class FieldMap(dict):
+    """fields of a struct value.  A name that is not a field of the struct itself is looked up in the fields that are
+    crate-private helper structs (state grouped into a nested private struct is still state of the parent): the lookup
+    succeeds only when exactly one of them has it."""
+    def _nested(self, k):
+        hits = [v.fields[k] for v in self.values() if isinstance(v, StructV) and v.path in TRANSPARENT and k in v.fields]
+        return hits
+    def __missing__(self, k):
+        hits = self._nested(k)
+        if len(hits) == 1: return hits[0]
+        raise KeyError(k)
+    def get(self, k, default=None):
+        if dict.__contains__(self, k): return dict.__getitem__(self, k)
+        hits = self._nested(k)
+        return hits[0] if len(hits) == 1 else default
+
 class StructV:
     def __init__(self, path, fields, ty=None):
-        self.path = path; self.fields = fields; self.ty = ty or path; self.uid = new_uid()
+        self.path = path; self.fields = fields if isinstance(fields, FieldMap) else FieldMap(fields); self.ty = ty or path; self.uid = new_uid()
     def __repr__(self): return '%s{%s}' % (self.path, ', '.join('%s: %r' % kv for kv in self.fields.items()))
 
 class EnumV:
@@ -338,7 +356,7 @@ def fcopy(x, memo=None):
         r = []; memo[i] = r
         r.extend(fcopy(y, memo) for y in x); return r
     if isinstance(x, dict):
-        r = {}; memo[i] = r
+        r = x.__class__(); memo[i] = r
         for k, v in x.items(): r[k] = fcopy(v, memo)
         return r
     if isinstance(x, set):
@@ -373,6 +391,7 @@ class GuardList(list):
 class Interp:
     def __init__(self, facts, abstract=()):
         self.f = facts
+        TRANSPARENT.clear(); TRANSPARENT.update(getattr(facts, 'transparent', ()))
         self.abstract = set(abstract)
         self.st = State(); sym.CTX = self.st.ranges
         self.tops = []          # (reason, span)
@@ -472,7 +491,17 @@ class Interp:
                     fty = fd['ty']
                     if args and re.match(r'^[A-Z]$', fty): fty = args[0]
                     fty = re.sub(r'\bT\b', args[0], fty) if args else fty
-                    fields[fd['name']] = self.sym_value(fty, name + '.' + fd['name'])
+                    sub = name + '.' + fd['name']
+                    if norm_ty(fty) in TRANSPARENT:
+                        # state grouped into a private helper struct is named as state of the parent (names are only
+                        # identifiers; kept apart when they would collide)
+                        inner = {x['name'] for x in self.f.adt(norm_ty(fty))['variants'][0]['fields']}
+                        outer = {x['name'] for x in adt['variants'][0]['fields']}
+                        others = set()
+                        for x in adt['variants'][0]['fields']:
+                            if x is not fd and norm_ty(x['ty']) in TRANSPARENT: others |= {y['name'] for y in self.f.adt(norm_ty(x['ty']))['variants'][0]['fields']}
+                        if not (inner & outer) and not (inner & others): sub = name
+                    fields[fd['name']] = self.sym_value(fty, sub)
                 return StructV(base, fields, ty=nty)
             if adt['kind'] == 'Enum':
                 ds = [v['discr'] for v in adt['variants']]
@@ -1233,7 +1262,13 @@ class Interp:
         m = re.match(r'^\[(.*); (\d+)\]$', norm_ty(e['ty']))
         elem = m.group(1) if m else '?'
         n = e['count']
-        if not isinstance(n, int): return self.top('repeat count', e)
+        if not isinstance(n, int):
+            # a const generic parameter: its value comes from the call that was inlined
+            r_ = self.resolve_ty(str(n)).strip()
+            if re.match(r'^\d+(_?usize)?$', r_): n = int(re.match(r'^(\d+)', r_).group(1))
+            else: return self.top('repeat count', e)
+            m = re.match(r'^\[(.*); (.*)\]$', norm_ty(self.resolve_ty(e['ty'])))
+            elem = m.group(1) if m else elem
         if elem == 'u8' and is_term(v):
             if n <= 64: return SeqV('u8', [('int', v, 1)] * n)
             return SeqV('u8', [('rep', C(n), None, (('int', v, 1),))])
@@ -1269,7 +1304,7 @@ class Interp:
                 v = RefV(v.place, v.mut); v.src_ty = st
                 # a re-borrow (&**x) makes a new reference to the same place: keep the type on the place of a temporary too
                 try:
-                    if is_term(v.place.get()) and getattr(v.place, 'src_ty', None) is None: v.place.src_ty = st
+                    if getattr(v.place, 'src_ty', None) is None and not isinstance(v.place.get(), (StructV, EnumV)): v.place.src_ty = st
                 except Exception:
                     pass
         return v
@@ -1875,7 +1910,13 @@ class Interp:
         if tr and args and (tr in self.f.trait_defaults or any(t_ == tr for (t_, _) in self.f.trait_impls)):
             rv = args[0]
             while isinstance(rv, RefV): rv = rv.place.get()
-            rty = rv.ty if isinstance(rv, (StructV, EnumV)) else self.value_type(rv)
+            rty = rv.ty if isinstance(rv, (StructV, EnumV)) else None
+            if not rty:
+                # a trait object made from a scalar or an array: the type recorded when it was unsized
+                r0 = args[0]
+                while isinstance(r0, RefV) and getattr(r0, 'src_ty', None) is None and getattr(r0.place, 'src_ty', None) is None and isinstance(r0.place.get(), RefV): r0 = r0.place.get()
+                if isinstance(r0, RefV): rty = getattr(r0, 'src_ty', None) or getattr(r0.place, 'src_ty', None)
+            if not rty: rty = self.value_type(rv)
             if not rty and isinstance(e.get('args'), list) and e['args'] and isinstance(e['args'][0], dict):
                 # a scalar / slice receiver has no type of its own: the static type of the receiver expression
                 rty = strip_refs(norm_ty(self.resolve_ty(e['args'][0].get('ty', '')))) or None
